@@ -93,14 +93,29 @@ PairVerdict(ev) ==
        /\ Chk("R3", ~ev.noIfData \/ ((~s.ok) <=> (~n.ok \/ serious)))
        /\ Chk("R3eq", (s.ok /\ n.ok) => ev.modelEq)
 
+\* C07: an unknown element between the sub-elements of a block (skip events: the observed outcomes of
+\* the base document (lenient), of the document with the payload (lenient) and of the same in strict mode)
+Classes(out) == [i \in 1..Len(out.diags) |-> out.diags[i][1]]
+RECURSIVE RemoveOne(_, _)
+RemoveOne(s, x) == IF s = <<>> THEN <<>> ELSE IF Head(s) = x THEN Tail(s) ELSE <<Head(s)>> \o RemoveOne(Tail(s), x)
+SkipVerdict(ev) ==
+    /\ Chk("BaseLoads", ev.base.ok)
+    /\ Chk("LenientLoads", ev.n.ok)
+    /\ ev.n.ok => /\ Chk("ExactlyOneWarning", /\ Len(ev.n.diags) = Len(ev.base.diags) + 1
+                                               /\ RemoveOne(Classes(ev.n), "UnknownSubBlock") = Classes(ev.base))
+                   /\ Chk("WarningNamesElement", ev.warningNamesTag)
+                   /\ Chk("RestUnchanged", ev.modelEq)
+    /\ Chk("StrictRejects", ~ev.s.ok /\ ev.s.e[1] = "UnknownSubBlock" /\ ev.strictNamesTag)
+
 TraceInit == Doc = <<>> /\ Strict = FALSE /\ l = 1
 TraceNext == /\ l <= Len(Rec)
-             /\ IF "pair" \in DOMAIN Rec[l] THEN UNCHANGED <<Doc, Strict>>
+             /\ IF "pair" \in DOMAIN Rec[l] \/ "skip" \in DOMAIN Rec[l] THEN UNCHANGED <<Doc, Strict>>
                 ELSE Doc' = Rec[l].toks /\ Strict' = Rec[l].strict
              /\ l' = l + 1
 TraceSpec == TraceInit /\ [][TraceNext]_tvars
 
-Judge == l > 1 => (IF (IF "pair" \in DOMAIN Rec[l - 1] THEN PairVerdict(Rec[l - 1]) ELSE Verdict(Rec[l - 1]))
+Judge == l > 1 => (IF (IF "pair" \in DOMAIN Rec[l - 1] THEN PairVerdict(Rec[l - 1])
+                       ELSE IF "skip" \in DOMAIN Rec[l - 1] THEN SkipVerdict(Rec[l - 1]) ELSE Verdict(Rec[l - 1]))
                    THEN TRUE ELSE PrintT(<<"REJECT", l - 1>>))
 
 TraceAccepted ==
